@@ -23,3 +23,20 @@ Theorem c08_known_kinds_end_of_life : forall e, known_env e -> forall progs, wf_
 Proof. exact known_C08_final. Qed.
 Print Assumptions c08_known_kinds_end_of_life.
 
+
+(** the wrapper over an arbitrary iterator, owning or not, with its buffered chunks (stale slots), panics
+    of the wrapped iterator and of the closures *)
+From OCI.proofs Require Import IterBase ChkIter IterLedger.
+Theorem c08_wrapped_iterator_run : forall e, iter_env e -> forall progs, wf_progs progs -> forall sched,
+  nowrap (c_labels (exec e (init progs) sched)) ->
+  chk_C08 e (c_trace (exec e (init progs) sched)) = true.
+Proof. exact iter_C08_run. Qed.
+Print Assumptions c08_wrapped_iterator_run.
+
+Theorem c08_wrapped_iterator_end_of_life : forall e, iter_env e -> forall progs, wf_progs progs -> forall sched,
+  nowrap (c_labels (exec e (init progs) sched)) ->
+  n_pending (c_trace (exec e (init progs) sched)) = 0%Z ->
+  (forall t, In t (nodup Nat.eq_dec sched) -> t_buf (c_pool (exec e (init progs) sched) t) = None) ->
+  forall t f, chk_C08 e (c_trace (final_step e (exec e (init progs) sched) t f)) = true.
+Proof. exact iter_C08_final. Qed.
+Print Assumptions c08_wrapped_iterator_end_of_life.
